@@ -60,6 +60,7 @@ def install(state, spec):
     from src.generators.config import cfg
     import export
     state["tvf"] = []
+    state["tvf_made"] = []      # (result object, creating caller): kept alive, ids stay unique
     state["gtp"] = []
     state["gfd"] = []
     state["stack"] = []
@@ -73,7 +74,10 @@ def install(state, spec):
         r = orig_tvf(self, factory)
         try:
             if len(state["tvf"]) < MAXREC and _nwild(r) > _nwild(self):
-                state["tvf"].append({"chain": _chain(2), "receiver": export.short(self), "result": export.short(r)})
+                ch = _chain(2)
+                state["tvf"].append({"chain": ch, "receiver": export.short(self), "result": export.short(r)})
+                callers = [c.split(":")[1] for c in ch if not c.startswith("types.py:")]
+                state["tvf_made"].append((r, callers[0] if callers else "types.py"))
         except Exception as e:   # recording must never disturb the run
             state["tvf"].append({"error": repr(e)})
         return r
@@ -147,6 +151,152 @@ def install(state, spec):
         return r
     G.Generator.gen_type_params = _w_gtp
     G.Generator.gen_func_decl = _w_gfd
+
+
+# ---------------------------------------------------------------------------------------------
+# independent scan of the REAL program objects (specification-side oracle of check_C17):
+# no exporter, no Lean.  Nodes are found through every attribute of a node that holds a node
+# (or a list/tuple/dict of nodes), types through every attribute that holds a type.
+
+FEATURES = ("projection", "contra-projection", "bound", "func-tparams", "variant-class-tparam",
+            "variant-func-tparam")
+
+
+def _type_features(t, memo, hits, trail):
+    """features of all sub-terms of a type occurrence (arguments, bounds, supertypes, the
+    constructor and its parameters)"""
+    import src.ir.types as tp
+    import export
+    if t is None or not isinstance(t, tp.Type):
+        return frozenset()
+    m = memo.get(id(t))
+    if m is not None and m[0] is t:
+        return m[1]
+    memo[id(t)] = (t, frozenset())     # cycles (none expected) do not loop
+    fs = set()
+    kids = []
+    if isinstance(t, tp.WildCardType):
+        fs.add("projection")
+        kind = ("star-projection" if t.bound is None else
+                {1: "covariant-projection", 2: "contravariant-projection"}.get(export.VAR(t.variance),
+                                                                              "invariant-projection"))
+        fs.add("kind:" + kind)
+        if export.VAR(t.variance) == 2:
+            fs.add("contra-projection")
+        kids.append(("bound", t.bound))
+    elif isinstance(t, tp.TypeParameter):
+        if t.bound is not None:
+            fs.add("bound")
+        kids.append(("bound", t.bound))
+    elif isinstance(t, tp.ParameterizedType):
+        kids.append(("con", t.t_constructor))
+        kids += [("arg", a) for a in t.type_args]
+    elif isinstance(t, tp.TypeConstructor):
+        kids += [("param", a) for a in t.type_parameters]
+    if not isinstance(t, (tp.WildCardType, tp.TypeParameter)):
+        kids += [("sup", a) for a in getattr(t, "supertypes", [])]
+    for lbl, k in kids:
+        fs |= _type_features(k, memo, hits, trail + [lbl])
+    fs = frozenset(fs)
+    memo[id(t)] = (t, fs)
+    return fs
+
+
+def _projection_sites(t, memo, out, enclosing=None, in_bound=False):
+    """(wildcard, nearest enclosing parameterized type, inside a type-parameter bound?)"""
+    import src.ir.types as tp
+    if t is None or not isinstance(t, tp.Type) or id(t) in memo:
+        return
+    memo[id(t)] = t
+    if isinstance(t, tp.WildCardType):
+        out.append((t, enclosing, in_bound))
+        _projection_sites(t.bound, memo, out, enclosing, in_bound)
+    elif isinstance(t, tp.TypeParameter):
+        _projection_sites(t.bound, memo, out, enclosing, True)
+    elif isinstance(t, tp.ParameterizedType):
+        _projection_sites(t.t_constructor, memo, out, enclosing, in_bound)
+        for a in t.type_args:
+            _projection_sites(a, memo, out, t, in_bound)
+    elif isinstance(t, tp.TypeConstructor):
+        for a in t.type_parameters:
+            _projection_sites(a, memo, out, enclosing, in_bound)
+    if not isinstance(t, (tp.WildCardType, tp.TypeParameter)):
+        for a in getattr(t, "supertypes", []):
+            _projection_sites(a, memo, out, enclosing, in_bound)
+
+
+def scan_program(program, state=None):
+    """returns {"features": sorted list, "per_node": counts, "origins": {...}}"""
+    import src.ir.ast as ast
+    import src.ir.types as tp
+    import src.ir.node as irnode
+    import export
+    feats = set()
+    memo = {}
+    seen = set()
+    types_seen = []
+    nnodes = 0
+
+    def values(x):
+        if isinstance(x, (list, tuple, set, frozenset)):
+            for y in x:
+                yield from values(y)
+        elif isinstance(x, dict):
+            for y in x.values():
+                yield from values(y)
+        else:
+            yield x
+
+    stack = list(program.declarations)
+    while stack:
+        n = stack.pop()
+        if n is None or id(n) in seen or not isinstance(n, irnode.Node) or isinstance(n, tp.Type):
+            continue
+        seen.add(id(n))
+        nnodes += 1
+        if isinstance(n, ast.FunctionDeclaration):
+            if n.type_parameters:
+                feats.add("func-tparams")
+            if any(export.VAR(t.variance) != 0 for t in n.type_parameters):
+                feats.add("variant-func-tparam")
+        if isinstance(n, ast.ClassDeclaration):
+            if any(export.VAR(t.variance) != 0 for t in n.type_parameters):
+                feats.add("variant-class-tparam")
+        for key, val in vars(n).items():
+            for v in values(val):
+                if isinstance(v, tp.Type):      # types are Nodes too: test them first
+                    types_seen.append(v)
+                    feats |= _type_features(v, memo, None, [key])
+                elif isinstance(v, irnode.Node):
+                    stack.append(v)
+    origins = {}
+    if "projection" in feats:
+        made = (state or {}).get("tvf_made", [])
+        by_id = {id(r): c for (r, c) in made}
+        by_str = {}
+        for (r, c) in made:
+            by_str.setdefault(export.short(r), c)
+        sites, m2 = [], {}
+        for t in types_seen:
+            _projection_sites(t, m2, sites)
+        for (w, enc, in_bound) in sites:
+            if enc is not None and id(enc) in by_id:
+                org = "to_type_variable_free<-" + by_id[id(enc)]
+            elif enc is not None and export.short(enc) in by_str:
+                org = "to_type_variable_free<-" + by_str[export.short(enc)]
+            else:
+                org = "unattributed"
+            k = "%s|%s" % ("in-type-parameter-bound" if in_bound else "outside-bounds", org)
+            origins[k] = origins.get(k, 0) + 1
+    return {"features": sorted(feats), "nodes": nnodes, "types": len(types_seen), "origins": origins}
+
+
+def stage(state, name, program, st):
+    if name == "gen":
+        try:
+            st["pyscan"] = scan_program(program, state)
+        except Exception as e:      # reported by the check as a harness error
+            st["pyscan"] = {"error": repr(e)}
 
 
 def collect(state):
